@@ -413,6 +413,8 @@ public:
       if (MD) o["f"] = FN(MD);
       else o["callee"] = expr(C->getCallee());
       o["obj"] = expr(C->getImplicitObjectArgument());
+      if (const auto* ME = dyn_cast<MemberExpr>(C->getCallee()->IgnoreParens()))
+        if (ME->hasQualifier()) o["qual"] = true;   // Base::f(): no dynamic dispatch
       json::Array args;
       for (const Expr* A : C->arguments()) args.push_back(expr(A));
       o["a"] = std::move(args);
@@ -1141,9 +1143,20 @@ public:
     varTemplates.push_back(std::move(o));
     return true;
   }
+  bool VisitVarTemplateSpecializationDecl(VarTemplateSpecializationDecl* D) {
+    if (!X.underRoot(D->getLocation())) return true;
+    if (isa<VarTemplatePartialSpecializationDecl>(D)) return true;
+    if (D->getSpecializationKind() != TSK_ExplicitSpecialization) return true;
+    json::Object o;
+    o["template"] = D->getSpecializedTemplate()->getQualifiedNameAsString();
+    o["targs"] = X.argList(&D->getTemplateArgs());
+    o["loc"] = X.locStr(D->getLocation());
+    varSpecs.push_back(std::move(o));
+    return true;
+  }
   Extractor& X;
   PrintingPolicy WP{LangOptions()};
-  json::Array classTemplates, partials, fnTemplates, enums, varTemplates;
+  json::Array classTemplates, partials, fnTemplates, enums, varTemplates, varSpecs;
 };
 
 class Consumer : public ASTConsumer {
@@ -1167,6 +1180,7 @@ public:
       top["function_templates"] = std::move(V.fnTemplates);
       top["enums"] = std::move(V.enums);
       top["var_templates"] = std::move(V.varTemplates);
+      top["var_specializations"] = std::move(V.varSpecs);
       json::Array ds;
       for (const auto& D : gDiags) {
         json::Object d;
